@@ -274,6 +274,7 @@ def verify_harness(h, rundir, cap_s, mem_gb, unwindset=None, extra=None, recursi
     open(log, 'w').close()
     t0 = time.time()
     res = {'harness': name, 'pretty_name': h['pretty_name'], 'unwind': h['attributes'].get('unwind_value'),
+           'source_file': h.get('original_file'), 'crate': h.get('crate_name'),
            'stubs': [s['original'].replace(' ', '') for s in h['attributes'].get('stubs', [])]}
     steps = [
         ['goto-cc', h['symtab'], KANI_LIB_C, '-o', out],
@@ -305,6 +306,7 @@ def verify_harness(h, rundir, cap_s, mem_gb, unwindset=None, extra=None, recursi
     if uws:
         cmd += ['--unwindset', ','.join(uws)]
     res['unwindset'] = len(uws)
+    res['unwindset_user'] = unwindset
     if h.get('name_map'):
         try:
             os.remove(h['name_map'])
